@@ -27,8 +27,8 @@ ASSUMPTIONS = [
     "stimuli are supplied with data_stimulate per segment (a stored stimulus always restarts at sample 0)",
     "in 60% of the cases an initial state (v or a gate) is trainable or data_set and passed to every call; the continued run must "
     "start from the returned states, not from the trainable value (integrate docstring: all_states overrides trainable initial states)",
-    "open finding F6: with prod(checkpoint_lengths) > steps and return_states=True the returned states are those after "
-    "prod-many steps; for such runs only the returned-state clause and continuation from it are excluded, recordings are still judged",
+    "fixed finding F6 (prod(checkpoint_lengths) > steps returned the states after prod-many steps): such layouts are judged like "
+    "every other one, including the continuation from the returned states",
 ]
 TECHNIQUE = "property-based testing (Hypothesis): differential one-shot vs split runs vs manual stepping; returned-state invariant"
 LEVEL_TEXT = (
@@ -69,7 +69,7 @@ def _spec(draw, tier):
     morph = draw(gm.morphology(tier, kinds=(kind,), max_branches=3, max_ncomp=3, max_cells=3, ranges=gm.RANGES_DYN))
     N = gm.n_compartments(morph["cells"])
     morph["v"] = [draw(fl(-75.0, -50.0)) for _ in range(N)]
-    chans = draw(gn.channel_placement(N, mechs=("HH", "HH", "Leak", "Na", "K", "Km"), max_ch=2, allow_rename=False))
+    chans = draw(gn.channel_placement(N, mechs=("HH", "HH", "Leak", "Na", "K", "Km", "CaL", "CaT"), max_ch=2, allow_rename=False))
     edges = draw(gn.edge_list(N, max_edges=4, min_edges=0)) if kind == "network" and N >= 2 else []
     n = draw(st.integers(2, 16)) if draw(st.integers(0, 3)) == 0 else draw(st.integers(4, 16))
     stim = draw(gn.stimuli(N, n, max_stim=1, min_stim=0))
@@ -197,8 +197,7 @@ def judge(spec, tier="quick"):
     if bad:
         out.violate("returned-states", f"return_states=True with checkpoint_lengths={lay}, {n} steps: returned {bad[0]} = {bad[1]!r} but the last "
                     f"returned time point has {bad[2]!r}", ckpt_over=bool(over))
-        if not over:
-            return out
+        return out
     # (1) split runs
     a = 0
     parts = []
@@ -211,9 +210,6 @@ def judge(spec, tier="quick"):
             return out
         parts.append(np.asarray(res[0], float))
         st_ = res[1]
-        if lay is not None and int(np.prod(lay)) > L:
-            f6_hit = True  # the continuation starts from a later state (open finding F6)
-            break
         a += L
     if not f6_hit:
         # the continued run starts from the returned state: its column 0 equals the previous segment's last
@@ -262,7 +258,7 @@ def judge(spec, tier="quick"):
         return out
     # (4) an edit between two segments: the continuation simulates the tables as they are NOW. The same module after
     # set() and a freshly built module with that value, both continued from the same returned states, must agree.
-    if len(segs) >= 2 and not f6_hit and init["mode"] == "none" and not over:
+    if len(segs) >= 2 and not f6_hit and init["mode"] == "none":
         L0 = int(segs[0])
         res, err = core.call(lambda: jx.integrate(m, data_stimuli=stimuli(0, L0), return_states=True, **kw))
         if err:
